@@ -270,6 +270,11 @@ func freeze(p *Program, path string) {
 			a := p.FA(curFn)
 			set := map[string]bool{}
 			for _, r := range a.NonRejectReturns() {
+				if e := splitOrigin(r, idx); e != nil {
+					// `return X` in normal form (if X != nil { return X }; return nil): the value of interest is X
+					set[a.X.E(e).String()] = true
+					continue
+				}
 				set[a.X.E(RetVal(r, idx)).String()] = true
 			}
 			var ws []string
@@ -364,4 +369,21 @@ func guardPos(g *Guard) token.Pos {
 		}
 	}
 	return 0
+}
+
+// splitOrigin: for the success half of a split error return (see inliner.splitErrorReturns) the error value whose
+// nil-ness decides it; nil otherwise.
+func splitOrigin(r *ssa.Return, idx int) ssa.Value {
+	b := r.Block()
+	if b.Comment != "split.ok" || idx != len(r.Results)-1 || len(b.Preds) != 1 {
+		return nil
+	}
+	iff, ok := b.Preds[0].Instrs[len(b.Preds[0].Instrs)-1].(*ssa.If)
+	if !ok {
+		return nil
+	}
+	if bo, ok := iff.Cond.(*ssa.BinOp); ok {
+		return bo.X
+	}
+	return nil
 }
